@@ -503,8 +503,11 @@ def run(pid: str, tier: str, seed: int, replay_file: str | None, only: str | Non
         "wall_s": round(wall, 2),
         "violations": len(violations),
     }
-    os.makedirs(os.path.join(VERIF, "evidence"), exist_ok=True)
-    with open(os.path.join(VERIF, "evidence", f"{pid}.json"), "w") as fh:
+    # evidence/ describes /repo only: a run against a scratch tree (selftest, seeded change) writes next to its replays
+    scratch = os.path.realpath(os.environ.get("VERIF_REPO", "/repo")) != "/repo"
+    ev_dir = os.path.join(VERIF, "replays", pid) if scratch else os.path.join(VERIF, "evidence")
+    os.makedirs(ev_dir, exist_ok=True)
+    with open(os.path.join(ev_dir, "evidence.scratch.json" if scratch else f"{pid}.json"), "w") as fh:
         json.dump(evidence, fh, indent=1)
     print(
         f"[{pid}] tier={tier} units={len(units)} paths={evidence['coverage']['paths_explored']} obligations={n_oblig} discharged={n_disch} "
